@@ -3,6 +3,7 @@ import D2P.Model.Output
 import D2P.Model.Iterators
 import D2P.Model.Lifecycle
 import D2P.Check.C01
+import D2P.Check.C13
 import D2P.Model.Replace
 import D2P.Model.Save
 /-!
@@ -250,6 +251,17 @@ def handleSave (j : Json) : Except String Json := do
   let o : Opts := { html := (j.getObjValAs? Bool "html").toOption.getD false, dup := true }
   pure (jM (fun (out : Archive) => .arr (out.members.map fun m => jStr m.1).toArray) (save o a))
 
+/-- `{"op":"valid", …package…}`: `validT` (hypothesis of `C13_part_total`) of every content part as it is walked
+(after `merge_elems`) -/
+def handleValid (j : Json) : Except String Json := do
+  let a ← archiveOfJson j
+  let o : Opts := { html := (j.getObjValAs? Bool "html").toOption.getD false, dup := true }
+  match a.files with
+  | .error e => pure (Json.mkObj [("err", .str (errName e))])
+  | .ok files =>
+    let cs := filesOfType files contentTypes
+    pure (Json.mkObj (cs.map fun r => (String.ofList r.path, jM (fun cr => toJson (validT cr.2)) (rootElement o a files r))))
+
 def handle (line : String) : Json :=
   match Json.parse line with
   | .error e => Json.mkObj [("bad", .str e)]
@@ -262,6 +274,7 @@ def handle (line : String) : Json :=
     | .ok "replace" => (match handleReplace j with | .ok r => r | .error e => Json.mkObj [("bad", .str e)])
     | .ok "lifecycle" => (match handleLifecycle j with | .ok r => r | .error e => Json.mkObj [("bad", .str e)])
     | .ok "save" => (match handleSave j with | .ok r => r | .error e => Json.mkObj [("bad", .str e)])
+    | .ok "valid" => (match handleValid j with | .ok r => r | .error e => Json.mkObj [("bad", .str e)])
     | .ok "render" => (match handleRender j with | .ok r => r | .error e => Json.mkObj [("bad", .str e)])
     | _ => Json.mkObj [("bad", .str "unknown op")]
 
